@@ -23,6 +23,20 @@ func refuseAll(n *simnet.Net) {
 	}
 }
 
+// blackholeSome: 40 % of the endpoints never complete the connect, the others refuse it.
+func blackholeSome(n *simnet.Net) {
+	n.Lookup = func(addr string) *simnet.Server {
+		h := uint64(0xb1ac)
+		for _, c := range []byte(addr) {
+			h = mix64(h, uint64(c))
+		}
+		if h%5 < 2 {
+			return &simnet.Server{Mode: simnet.Blackhole}
+		}
+		return &simnet.Server{Mode: simnet.Refuse, ConnectTime: 200 * time.Microsecond}
+	}
+}
+
 // gotProbes extracts the multiset of probes from the wire log (packet scans) or the dial log
 // (application scans).
 func gotProbes(s *scanSpec, cr *CmdResult) (map[probeKey]int, []string) {
@@ -70,9 +84,19 @@ func runC01(t *testing.T, c simrt.Chooser, o Opts) *Out {
 	if p.pct("exitdelay", 30) {
 		s.ExitDelay = []string{"1ms", "50ms", "2s", "300ms"}[p.n("ed", 4)]
 	}
+	silent := s.app() && p.pct("silentpeers", 50)
+	if silent {
+		// many targets never answer the connect: every one of them costs a probe its timeout, none
+		// of them may cost the scan a worker
+		s.Workers = p.pick("fewworkers", 1, 2, 3, 7)
+		s.Extra = append(s.Extra, "-t", "20ms")
+	}
 	w := s.world()
 	w.NumCPU = p.pick("numcpu", 1, 2, 3, 4, 8, 16, 64)
 	w.tcp = refuseAll
+	if silent {
+		w.tcp = blackholeSome
+	}
 	want := s.expected()
 	sc := &c01Scenario{Spec: s, World: w, Probes: s.nprobes()}
 	out := &Out{Scenario: sc, Stats: map[string]int{}}
